@@ -19,6 +19,7 @@ RULE = (
     "length, finiteness, range, monotonicity in score, equality on ties, permutation equivariance. files: PEP / "
     "q-value columns of assign_confidence outputs per algorithm. Non-trivial = unsorted input with >=50 targets "
     "and >=50 decoys; distinct = (algorithm, seed, index, rep)."
+    " files class, every second case: the same analysis written to an SQLite result database (sqlite_path): stored PEP / q-value / score of every PSM and peptide equal the text files', PEPs in [0,1] and score-monotone."
 )
 ASSUMPTIONS = [
     "degenerate inputs (no decoys, constant scores, <50 of either label) are outside the statement",
@@ -240,10 +241,68 @@ def run_files(case):
                 res.violate("file_" + kind, f"{alg}/{lvl}", what=dd)
             # every written row carries the PEP of its own score: one PEP value per distinct score
             res.count("file_rows_checked", len(df))
+        if case["index"] % 2 == 0:
+            _sqlite_results(res, tab, ds_path=path, scores=scores, alg=alg, files=files, d=d)
     res["nontrivial"] = True
     res["key"] = f"files/{case['seed']}/{case['index']}"
     res["sample"] = {"alg": alg, "levels": sorted(levels)}
     return res
+
+
+def _sqlite_results(res, tab, ds_path, scores, alg, files, d):
+    """The same analysis written to an SQLite result database (assign_confidence(sqlite_path=...)): the stored PEP /
+    q-value / score of every PSM and peptide must be those of the text result files, PEPs in [0,1] and score-monotone."""
+    import sqlite3
+
+    import pandas as pd
+    from vf.instruments import pipeline
+
+    db = d / "results.db"
+    con = sqlite3.connect(db)
+    con.execute("CREATE TABLE CANDIDATE (CANDIDATE_ID TEXT NOT NULL, PSM_FDR REAL, SVM_SCORE REAL, POSTERIOR_ERROR_PROBABILITY REAL, PRIMARY KEY (CANDIDATE_ID));")
+    con.execute("CREATE TABLE PEPTIDE_VALIDATION (PEPTIDE_ID TEXT NOT NULL, FDR REAL, PEP REAL, SVM_SCORE REAL, PRIMARY KEY (PEPTIDE_ID));")
+    con.executemany("INSERT INTO CANDIDATE (CANDIDATE_ID) VALUES(?);", [(str(i),) for i in tab["df"]["SpecId"]])
+    con.commit()
+    con.close()
+    ds = pipeline.read_datasets([ds_path])
+    c = pipeline.run_confidence(ds, [scores[0].copy()], d / "out_sql", decoys=True, peps_algorithm=alg, rng=1, sqlite_path=db)
+    res.count("sqlite_runs")
+    if not c.ok:
+        if c.explicit:
+            res.count("sqlite_refused")
+            return
+        res.violate("crash", c.sig + "/sqlite/" + alg, msg=c.info["msg"])
+        return
+    con = sqlite3.connect(db)
+    cand = pd.read_sql_query("SELECT * FROM CANDIDATE WHERE SVM_SCORE IS NOT NULL", con)
+    pepv = pd.read_sql_query("SELECT * FROM PEPTIDE_VALIDATION", con)
+    con.close()
+    txt_psm = pd.concat([files["targets.psms"], files["decoys.psms"]], ignore_index=True)
+    txt_pep = pd.concat([files["targets.peptides"], files["decoys.peptides"]], ignore_index=True)
+    qcol = [c_ for c_ in txt_psm.columns if c_.replace("_", "-") == "q-value"][0]
+    for lvl, got, idc, cols, ref, refid in (
+        ("psms", cand, "CANDIDATE_ID", ("SVM_SCORE", "PSM_FDR", "POSTERIOR_ERROR_PROBABILITY"), txt_psm, "PSMId"),
+        ("peptides", pepv, "PEPTIDE_ID", ("SVM_SCORE", "FDR", "PEP"), txt_pep, "peptide"),
+    ):
+        if len(got) == 0:
+            res.violate("sqlite_level_empty", lvl)
+            continue
+        s = got[cols[0]].values.astype(float)
+        for kind, dd in faults(got[cols[2]].values, s, 0.0, 1.0, "pep"):
+            res.violate("sqlite_" + kind, f"{alg}/{lvl}", what=dd)
+        r = ref.drop_duplicates(refid).set_index(ref.drop_duplicates(refid)[refid].astype(str))
+        g = got.set_index(got[idc].astype(str))
+        if set(g.index) != set(r.index):
+            res.violate("sqlite_rows_differ_from_text", lvl, only_db=len(set(g.index) - set(r.index)), only_text=len(set(r.index) - set(g.index)))
+            continue
+        r = r.loc[g.index]
+        for dbc, txc in zip(cols, ("score", qcol, "posterior_error_prob")):
+            a, b = g[dbc].values.astype(float), r[txc].values.astype(float)
+            if not np.allclose(a, b, rtol=1e-6, atol=1e-12):
+                bad = int((~np.isclose(a, b, rtol=1e-6, atol=1e-12)).sum())
+                res.violate("sqlite_value_differs_from_text", f"{lvl}/{dbc}", rows=bad, example_db=a[~np.isclose(a, b, rtol=1e-6)][:3].tolist(),
+                            example_text=b[~np.isclose(a, b, rtol=1e-6)][:3].tolist())
+        res.count("sqlite_rows_checked", len(got))
 
 
 def run_case(case):
